@@ -69,9 +69,26 @@ func (n c01Node) src() string {
 	case "text":
 		return n.S
 	case "print":
+		// equivalent spellings (the model's meaning of the node is unchanged) that put two-character operators into the
+		// token stream; which one is a function of the node, so that a history replays exactly
+		switch (len(n.V)*7 + len(n.S)) % 4 {
+		case 1:
+			return "{{ " + n.V + " != " + n.V + " ? " + n.V + " : " + n.V + " }}"
+		case 2:
+			return "{{ " + n.V + " == 0 && " + n.V + " >= 1 ? 0 : " + n.V + " }}"
+		}
 		return "{{ " + n.V + " }}"
 	case "if":
-		return "{% if " + n.V + " %}" + c01Srcs(n.A) + "{% else %}" + c01Srcs(n.B) + "{% endif %}"
+		cond := n.V
+		switch (len(n.V) + len(n.A)*3 + len(n.B)) % 4 {
+		case 1:
+			cond = n.V + " && " + n.V
+		case 2:
+			cond = n.V + " && (" + n.V + " != " + n.V + " or " + n.V + ")"
+		case 3:
+			cond = n.V + " and " + n.V + " == " + n.V + " or " + n.V
+		}
+		return "{% if " + cond + " %}" + c01Srcs(n.A) + "{% else %}" + c01Srcs(n.B) + "{% endif %}"
 	case "for":
 		return "{% for " + n.X + " in " + n.XS + " %}" + c01Srcs(n.A) + "{% endfor %}"
 	case "include":
@@ -1174,6 +1191,10 @@ func runC01(e *Env) error {
 		} else if !ok {
 			break
 		}
+		// templates registered at the very start of the run on an engine of their own keep rendering the same while
+		// all these histories (and a failing or operator-rich parse in between) go by
+		guarded(func() (string, error) { return "", twig.New().RegisterString("primer", primers[i%len(primers)]) })
+		sentinelCheck(e)
 	}
 	r.Note(fmt.Sprintf("pristine-process comparisons left unused: %d", budget))
 	c01StopWorker()
